@@ -96,6 +96,10 @@ Catalogue(pt) == {
   \* path not starting with AS_CONFED_SEQUENCE are a Malformed AS_PATH "per RFC 4271" (reset);
   \* RFC 7606 7.2 makes a malformed AS_PATH treat-as-withdraw.  Either is accepted.
   Row("AS_PATH", "val",     W, R, {BadPath}),
+  \* the same error with the confederation segment (AS_CONFED_SEQUENCE / AS_CONFED_SET) BEHIND an
+  \* ordinary segment, as it looks after the sender prepended its own AS (plain eBGP peer only)
+  Row("AS_PATH", "valb",    W, R, {BadPath}),
+  Row("AS_PATH", "valbs",   W, R, {BadPath}),
 
   \* NEXT_HOP - RFC 7606 7.3: length other than 4 => treat-as-withdraw
   Row("NEXT_HOP", "len",   W, W, {LenErr}),
@@ -231,6 +235,7 @@ Entry(f, pt) == TLCGet(8)[pt][<<f.a, f.k>>]
 Applies(a, k, base, pt) ==
   CASE a = "LOCAL_PREF" /\ k = "miss" -> pt = "ibgp" /\ base \in {"v4", "v6", "mix"}
     [] a = "AS_PATH" /\ k = "val"     -> pt # "ibgp" /\ base \in {"v4", "v6", "mix"}
+    [] a = "AS_PATH" /\ k \in {"valb", "valbs"} -> pt = "ebgp" /\ base \in {"v4", "v6", "mix"}
     [] a = "NEXT_HOP"                 -> base \in {"v4", "mix"}
     [] a = "MP_REACH"                 -> base \in {"v6", "mix"}
     [] a = "MP_UNREACH"               -> base \in {"wd", "mix"}
@@ -245,6 +250,23 @@ Positional(a, k) == a \notin {"ATTR", "TOTLEN", "WDLEN", "WDPFX", "NLRI"} /\ k #
 
 MaxOf(S) == CHOOSE x \in S : \A y \in S : y <= x
 
+Has(fs, a, k) == [a |-> a, k |-> k] \in fs
+
+(* SHIFTED FRAMING.  With the Total Attribute Length one short (TOTLEN/short) the last attribute runs
+   over the attribute area (RFC 7606 4: treat-as-withdraw) and the NLRI field, which section 4 says
+   MUST be located by the Total Attribute Length, starts one octet early: the prefixes the message
+   names AS RECEIVED are not the ones the sender meant (e.g. `05 | 18 0a 01 00 | 18 0a 02 00` reads
+   as 24/5, 1.0/10, 10.2.0.0/24), and the overrunning attribute (possibly MP_REACH / MP_UNREACH)
+   is not parsed at all.  No receiver can know the sender's intent, so for such a message the
+   property layer (a) counts as "named" only what lies BEFORE the Total Attribute Length field -
+   the Withdrawn Routes field - and (b) does not count a fault that was injected into the NLRI field
+   as sent (its octets are framed differently as received).  Whether the shifted NLRI parses or not,
+   both treat-as-withdraw and a reset are allowed (row TOTLEN/short: lo = W, hi = R). *)
+Shifted(fs) == Has(fs, "TOTLEN", "short")
+AsReceived(fs) == IF Shifted(fs) THEN {f \in fs : f.a # "NLRI"} ELSE fs
+NamedAsReceived(fs, base) ==
+  IF Shifted(fs) THEN {p \in Wd(base) : IsV4(p)} ELSE Ann(base) \cup Wd(base)
+
 (* the faults of a message that make it malformed *)
 Real(fs, pt) == {f \in fs : Entry(f, pt).lo # None}
 
@@ -253,7 +275,7 @@ Real(fs, pt) == {f \in fs : Entry(f, pt).lo # None}
 Lo(fs, pt, taw) ==
   IF Real(fs, pt) = {} THEN None
   ELSE IF ~taw THEN ResetC
-  ELSE MaxOf({Entry(f, pt).lo : f \in fs})
+  ELSE MaxOf({Entry(f, pt).lo : f \in AsReceived(fs)})
 
 ResetJustified(fs, pt, taw) ==
   \/ ~taw /\ Real(fs, pt) # {}
@@ -263,13 +285,14 @@ OkCodes(fs, pt, taw) ==
   UNION {Entry(f, pt).codes : f \in {g \in Real(fs, pt) : ~taw \/ Entry(g, pt).hi = ResetC}}
 
 ---------------------------------------------------------------------------
-(* MECHANISM LAYER: how pkg/packet/bgp and pkg/server/fsm.go classify the same faults.
+(* MECHANISM LAYER: how pkg/packet/bgp and pkg/server/fsm.go classify the same faults (tree with the
+   repairs 52d5a94 558dfcd d38116e ed031b5 61def0e 7f4dc27).
    stage "frame": BGPUpdate.DecodeFromBytes returns a plain MessageError (session reset) at once;
    stage "dec"  : per-attribute decode error inside DecodeFromBytes, class from
-                  getErrorHandlingFromPathAttribute (flags errors: treat-as-withdraw), the
-                  strongest is kept (MessageError.Stronger);
-   stage "val"  : found by ValidateUpdateMsg / ValidateAttribute, which recvMessageloop calls only
-                  when decoding reported NO error;
+                  getErrorHandlingFromPathAttribute (flags errors: treat-as-withdraw, except on
+                  MP_REACH_NLRI / MP_UNREACH_NLRI), the strongest is kept (MessageError.Stronger);
+   stage "val"  : found by ValidateUpdateMsg / ValidateAttribute, which recvMessageloop calls when
+                  decoding reported no error or an attribute-discard one;
    stage "none" : not detected at all. *)
 Impl(f, pt) ==
   LET a == f.a
@@ -286,95 +309,59 @@ Impl(f, pt) ==
     [] k = "miss"                                             -> M("val", Withdraw)
     [] a = "UNKNOWN" /\ k = "ok"                              -> M("none", None)
     [] a = "UNKNOWN" /\ k = "wk"                              -> M("val", ResetC)
-    [] k \in {"val", "valm"} /\ a = "AS_PATH" /\ pt = "confed" -> M("val", ResetC)
-    [] k \in {"val", "valm"}                                  -> M("val", Withdraw)
-    [] k = "zlen"                                             -> M("dec", None)   \* looked at by the decoder, accepted
-    [] k = "alone"                                            -> M("none", None)
+    [] k = "val" /\ a = "AS_PATH" /\ pt = "confed"            -> M("val", ResetC)
+    [] k \in {"val", "valm", "valb", "valbs"}                 -> M("val", Withdraw)
+    [] k = "alone"                                            -> M("none", None)   \* dropped silently
+    [] a \in {"MP_REACH", "MP_UNREACH"}                       -> M("dec", ResetC)  \* flags included
     [] k = "flags" \/ (a = "UNKNOWN" /\ k = "wk0")            -> M("dec", Withdraw)
-    [] a \in {"MP_REACH", "MP_UNREACH"}                       -> M("dec", ResetC)
     [] a \in {"ATOMIC_AGGREGATE", "AGGREGATOR"}               -> M("dec", Discard)
-    [] OTHER                                                  -> M("dec", Withdraw)
+    [] OTHER                                                  -> M("dec", Withdraw) \* zlen included
 
 StageOf(fs, pt, s) == {f \in fs : Impl(f, pt).stage = s}
 ClsMax(S, pt) == MaxOf({Impl(f, pt).cls : f \in S} \cup {None})
 
-(* fixed = FALSE: recvMessageloop as it is (validation only when decoding was clean);
-   fixed = TRUE : validation also after a discard / treat-as-withdraw decode error, stronger kept *)
-Has(fs, a, k) == [a |-> a, k |-> k] \in fs
-(* DecodeFromBytes returns as soon as an attribute runs over the Total Attribute Length: the NLRI
-   field behind it is never looked at *)
-StopsBeforeNlri(fs) == Has(fs, "ATTR", "overrun") \/ Has(fs, "TOTLEN", "short")
-FrameSeen(fs, pt) == {f \in StageOf(fs, pt, "frame") : ~(f.a = "NLRI" /\ StopsBeforeNlri(fs))}
-(* table.UpdatePathAggregator4ByteAs (called by recvMessageloop after validation): an AS4_AGGREGATOR
-   left without a decoded AGGREGATOR - sent alone, or the AGGREGATOR was discarded as malformed or
-   not decoded because of its flags - is answered with NOTIFICATION 3/1 *)
-As4AggAlone(fs) ==
-  /\ \E f \in fs : f.a = "AS4_AGGREGATOR"
-  /\ (Has(fs, "AS4_AGGREGATOR", "alone") \/ Has(fs, "AGGREGATOR", "len") \/ Has(fs, "AGGREGATOR", "flags"))
+(* with the framing shifted the NLRI-field fault is not where it was put (see Shifted) *)
+FrameSeen(fs, pt) == StageOf(AsReceived(fs), pt, "frame")
 (* PathAttribute.DecodeFromBytes checks the flags before the attribute's own decoder runs: a second
    decode-stage fault inside an attribute with wrong flags is never looked at *)
 DecSeen(fs, pt) == {f \in StageOf(fs, pt, "dec") : f.k = "flags" \/ ~Has(fs, f.a, "flags")}
-MechClass(fs, pt, taw, fixed) ==
+(* all = FALSE: recvMessageloop as it is (validation when decoding was clean or discard-class);
+   all = TRUE : validation also after a treat-as-withdraw decode error, stronger kept *)
+MechClass(fs, pt, taw, all) ==
   LET dc  == ClsMax(DecSeen(fs, pt), pt)
       vc  == ClsMax(StageOf(fs, pt, "val"), pt)
       raw == IF FrameSeen(fs, pt) # {} \/ dc = ResetC THEN ResetC
-             ELSE IF dc = None \/ fixed THEN MaxOf({dc, vc})
+             ELSE IF dc \in {None, Discard} \/ all THEN MaxOf({dc, vc})
              ELSE dc
-  IN IF raw # None /\ ~taw THEN ResetC
-     ELSE IF As4AggAlone(fs) THEN ResetC
-     ELSE raw
+  IN IF raw # None /\ ~taw THEN ResetC ELSE raw
 
 ---------------------------------------------------------------------------
 (* KNOWN FINDING predicates: each identifies, FROM THE INPUTS ONLY, the messages on which the
-   pinned speaker is known to deviate (findings_proposed/C06-*.md, known_findings.jsonl), and what
-   the weakened invariants of the trace spec then stop demanding. *)
+   pinned speaker is known to deviate (known_findings.jsonl), and what the weakened invariants of
+   the trace spec then stop demanding.  (Four further findings of this check are repaired and have
+   no predicate any more: zero-length list attributes, treat-as-withdraw without parsed NLRI,
+   AS4_AGGREGATOR alone, ORIGIN length subcode.) *)
 
-(* KF-C06-discard-masks-validation: a decode-stage error of class discard / treat-as-withdraw makes
-   recvMessageloop skip ValidateUpdateMsg, so every validation-stage fault of the same message goes
-   unnoticed.  Only possible with revised error handling on (off: the decode error resets). *)
+(* KF-C06-discard-masks-validation, treat-as-withdraw half (the attribute-discard half is repaired
+   by 7f4dc27): a decode-stage error of class treat-as-withdraw makes recvMessageloop skip
+   ValidateUpdateMsg, so what only the validator finds goes unnoticed - which matters for its
+   RESET-class findings (unrecognised well-known attribute, duplicate MP_REACH/MP_UNREACH,
+   confederation AS_PATH of a member peer).  Only with revised error handling on. *)
 Masked(fs, pt, taw) ==
   /\ taw
   /\ FrameSeen(fs, pt) = {}
-  /\ ClsMax(DecSeen(fs, pt), pt) # ResetC
-  \* a decode error of class discard / withdraw; a zero-length list counts as one (it is none on the
-  \* pinned tree - then nothing is masked and the strict invariants hold - but becomes one as soon
-  \* as KF-C06-zero-length-list-attribute is repaired)
-  /\ \E f \in StageOf(fs, pt, "dec") : Impl(f, pt).cls \in {Discard, Withdraw} \/ f.k = "zlen"
+  /\ ClsMax(DecSeen(fs, pt), pt) = Withdraw
   /\ StageOf(fs, pt, "val") # {}
 (* KF-C06-ibgp-local-pref-not-mandatory: ValidateUpdateMsg never asks for LOCAL_PREF *)
 KF_LocalPref(fs) == Has(fs, "LOCAL_PREF", "miss")
-(* KF-C06-zero-length-list-attribute: zero-length COMMUNITIES / CLUSTER_LIST / EXTENDED COMMUNITIES /
-   LARGE COMMUNITIES pass the "multiple of n" length test and are installed *)
-KF_ZeroLen(fs) == \E f \in fs : f.k = "zlen"
-(* KF-C06-withdraw-without-nlri: treat-as-withdraw is chosen although the prefixes were not parsed
-   (MP_REACH / MP_UNREACH with wrong flags are not decoded; DecodeFromBytes returns at an attribute
-   overrun before the NLRI field), so the routes of those prefixes stay *)
-KF_Unparsed(fs) == Has(fs, "MP_REACH", "flags") \/ Has(fs, "MP_UNREACH", "flags") \/ StopsBeforeNlri(fs)
-UnparsedPfx(fs, base) ==
-  (IF Has(fs, "MP_REACH", "flags") THEN {p \in Ann(base) : ~IsV4(p)} ELSE {})
-  \cup (IF Has(fs, "MP_UNREACH", "flags") THEN {p \in Wd(base) : ~IsV4(p)} ELSE {})
-  \cup (IF Has(fs, "ATTR", "overrun") THEN {p \in Ann(base) : IsV4(p)} ELSE {})
-  \cup (IF Has(fs, "TOTLEN", "short") THEN (Ann(base) \cup Wd(base)) \ {"P3"} ELSE {})
-(* KF-C06-as4-aggregator-alone-resets: see As4AggAlone *)
-KF_As4Agg(fs) == As4AggAlone(fs)
-(* KF-C06-origin-length-subcode: a wrong ORIGIN length is reported as 3/1 (Malformed Attribute List)
-   instead of 3/5 (Attribute Length Error) *)
-KF_OriginCode(fs) == Has(fs, "ORIGIN", "len")
 
 (* the faults the pinned speaker is known not to act upon *)
 Ignored(fs, pt, taw) ==
   (IF Masked(fs, pt, taw) THEN StageOf(fs, pt, "val") ELSE {})
-  \cup {f \in fs : f.k = "zlen" \/ (f.a = "LOCAL_PREF" /\ f.k = "miss")}
-  \cup (IF StopsBeforeNlri(fs) THEN {f \in fs : f.a = "NLRI"} ELSE {})
-  \* an MP_REACH / MP_UNREACH with wrong flags is not decoded any further (KF-C06-withdraw-without-nlri)
-  \cup {f \in fs : f.a \in {"MP_REACH", "MP_UNREACH"} /\ f.k # "flags" /\ Has(fs, f.a, "flags")}
+  \cup {f \in fs : f.a = "LOCAL_PREF" /\ f.k = "miss"}
 Unmasked(fs, pt, taw) == fs \ Ignored(fs, pt, taw)
 
 KFTags(fs, pt, taw) ==
   (IF Masked(fs, pt, taw) THEN {"KF-C06-discard-masks-validation"} ELSE {})
   \cup (IF KF_LocalPref(fs) THEN {"KF-C06-ibgp-local-pref-not-mandatory"} ELSE {})
-  \cup (IF KF_ZeroLen(fs) THEN {"KF-C06-zero-length-list-attribute"} ELSE {})
-  \cup (IF KF_Unparsed(fs) THEN {"KF-C06-withdraw-without-nlri"} ELSE {})
-  \cup (IF KF_As4Agg(fs) THEN {"KF-C06-as4-aggregator-alone-resets"} ELSE {})
-  \cup (IF KF_OriginCode(fs) THEN {"KF-C06-origin-length-subcode"} ELSE {})
 =============================================================================
